@@ -210,3 +210,34 @@ def nps_abstract(ex, st, args, kwargs, node):
         st.ctx.add(res.len() <= seg.len() + 1)
         m[key] = res
     yield V.VSList(m[key], fresh=True), st
+
+
+# ---------------------------------------------------------------- _Quoter._do_quote_or_skip (fast path, buffer release)
+
+def skip_pre(ex, st, args):
+    from pyvc.values import VBool, VInt
+    st.ghost["live"] = VInt(0)
+    st.ghost["quoted"] = VBool(False)
+    return {}
+
+
+def skip_post(ex, st, pre, flow, val, args):
+    """at every exit no heap block is left allocated; a value returned without going through
+    _do_quote is the argument itself and consists of skippable characters only (which the
+    specification leaves alone: contracts.spec_quote.lemma_skippable_is_fixed)"""
+    import z3
+    from pyvc import values as V
+    from contracts import spec_quote
+    live = st.ghost.get("live")
+    ex.oblige(st, f"_do_quote_or_skip:no-heap-block-leaks[{flow}]", "post", live.t == 0, None, {})
+    if flow != "return":
+        return
+    quoted = st.ghost.get("quoted")
+    self_, text = args[0], args[1]
+    name = spec_quote.INSTANCE_NAME[id(self_.obj)]
+    codes = spec_quote.skippable_codes(name)
+    same = z3.BoolVal(val is text)
+    allsafe = V.all_in(st.ctx, text, lambda t: V.in_set(t, codes), "skippable")
+    ex.oblige(st, "_do_quote_or_skip:returned-without-quoting=>argument-itself", "post", z3.Or(quoted.t, same), None, {})
+    ex.oblige(st, "_do_quote_or_skip:returned-without-quoting=>all-characters-skippable", "post",
+              z3.Or(quoted.t, allsafe), None, {"lemma": "contracts.spec_quote:lemma_skippable_is_fixed"})
